@@ -24,6 +24,7 @@ modelled — see DESIGN.md §3.2).
 from __future__ import annotations
 
 import ast
+import copy
 import hashlib
 import json
 import os
@@ -141,6 +142,9 @@ class Tr:
         if isinstance(node, ast.Attribute):
             base = self.dotted(node.value)
             return None if base is None else base + "." + node.attr
+        if isinstance(node, ast.Subscript) and isinstance(node.slice, ast.Constant) and isinstance(node.slice.value, str):
+            base = self.dotted(node.value)          # a dictionary entry with a constant key is a variable: axis_info['first']
+            return None if base is None else f"{base}[{node.slice.value!r}]"
         return None
 
     def coerce(self, e, t_from, t_to):
@@ -425,6 +429,8 @@ class Tr:
             # value-returning `a or b` with a : Optional[int], b : int   (e.g. `sli.step or 1`)
             if isinstance(node.op, ast.Or) and len(vals) == 2 and vals[0][1] == opt(INT) and vals[1][1] == INT:
                 return f"(match {vals[0][0]} with | some v => if v ≠ 0 then v else {vals[1][0]} | none => {vals[1][0]})", INT
+            if isinstance(node.op, ast.Or) and len(vals) == 2 and vals[0][1] == opt(STR) and vals[1][1] == STR:
+                return f"(match {vals[0][0]} with | some v => if v ≠ \"\" then v else {vals[1][0]} | none => {vals[1][0]})", STR
             raise TranslationError(f"boolean operator on non-booleans: {src}")
         if isinstance(node, ast.IfExp):
             refined = self.none_test(node.test, env)
@@ -541,6 +547,12 @@ class Tr:
                 raise TranslationError("np.allclose on something that is not a pair / 4-tuple of numbers")
             want = tup(*([RAT] * n))
             return f"(npAllclose{n} {self.coerce(a, ta, want)} {self.coerce(b, tb, want)})", BOOL
+        if isinstance(node.func, ast.Attribute) and node.func.attr == "get" and len(node.args) == 1 and not node.keywords \
+                and isinstance(node.args[0], ast.Constant) and isinstance(node.args[0].value, str):
+            key = f"{self.dotted(node.func.value)}[{node.args[0].value!r}]"
+            if key in env and isinstance(env[key][1], tuple) and env[key][1][0] == "opt":
+                return env[key]                     # d.get('k'): the entry, None when absent
+            raise TranslationError(f"dictionary lookup {ast.unparse(node)}")
         if fname == "np.invert" and len(args) == 1 and not node.keywords and args[0][1] == BOOL:
             return f"(!{args[0][0]})", BOOL
         if fname == "np.expand_dims" and len(args) == 1 and [k.arg for k in node.keywords] == ["axis"]:
@@ -820,7 +832,7 @@ class Tr:
                     raise TranslationError(f"statement outside the translated subset changed: `{ast.unparse(s)[:100]}` "
                                            f"(expected `{want_src}`)")
                 return cont(env)
-            if isinstance(tgt, ast.Subscript):
+            if isinstance(tgt, ast.Subscript) and not (isinstance(tgt.slice, ast.Constant) and isinstance(tgt.slice.value, str)):
                 return self.subscript_store(s, tgt, env, cont)
             if isinstance(s.value, ast.Call):
                 inl = self.spec.get("inline", {}).get(self.dotted(s.value.func))
@@ -1009,8 +1021,31 @@ class Tr:
         return code + self.block(rest, env2, k)
 
     def for_range(self, s, rest, env, k):
-        """`for i in range(n): body` -> a left fold of the (emitted) body function over `List.range n`"""
+        """`for i in range(n): body` -> a left fold of the (emitted) body function over `List.range n`;
+        `for k in (<constants>): body` -> the body once per constant, in order (unrolled)"""
         it = s.iter
+        if isinstance(it, (ast.Tuple, ast.List)) and it.elts and all(isinstance(e, ast.Constant) for e in it.elts) \
+                and isinstance(s.target, ast.Name) and not s.orelse:
+            var = s.target.id
+            for n in ast.walk(ast.Module(body=list(s.body), type_ignores=[])):
+                if isinstance(n, (ast.Break, ast.Continue, ast.Return, ast.Yield)):
+                    raise TranslationError("break / continue / return / yield inside for")
+                if isinstance(n, ast.Name) and n.id == var and isinstance(n.ctx, ast.Store):
+                    raise TranslationError(f"loop variable {var} is assigned in the loop")
+            if var in env:
+                raise TranslationError(f"loop variable {var} shadows a variable")
+
+            class Sub(ast.NodeTransformer):
+                def __init__(self, c):
+                    self.c = c
+
+                def visit_Name(self, node):
+                    return ast.copy_location(ast.Constant(value=self.c), node) if node.id == var else node
+            unrolled = []
+            for e in it.elts:
+                for st in s.body:
+                    unrolled.append(ast.fix_missing_locations(Sub(e.value).visit(copy.deepcopy(st))))
+            return self.block(unrolled + list(rest), env, k)
         if s.orelse or not isinstance(s.target, ast.Name) or not (isinstance(it, ast.Call) and self.dotted(it.func) == "range"
                                                                     and len(it.args) == 1 and not it.keywords):
             raise TranslationError(f"for loop other than `for i in range(n)`: {ast.unparse(s)[:60]}")
@@ -1529,6 +1564,13 @@ SPECS = [
                                         "nb = len(nc_handle[coord_varname])",
                                         "return {'first': first, 'last': last, 'spacing': spacing, 'nb': nb, 'sign': sign, 'unit': unit}"]),
          owners=["C20"]),
+    dict(name="cf_geos_convert", file="pyresample/utils/cf.py", func="_convert_XY_CF_to_Proj", mode="fragment",
+         params=[("axis_info['unit']", opt(STR)), ("crs_cf['grid_mapping_name']", STR), ("crs_cf['perspective_point_height']", RAT),
+                 ("axis_info['first']", RAT), ("axis_info['last']", RAT), ("axis_info['spacing']", RAT)],
+         skip_targets={"crs_cf": "crs_cf = crs.to_cf()"}, ignore_return_value=True,
+         outputs=["axis_info['first']", "axis_info['last']", "axis_info['spacing']"],
+         output_types={"axis_info['first']": RAT, "axis_info['last']": RAT, "axis_info['spacing']": RAT},
+         select=_whole, owners=["C20"]),
     dict(name="cf_extent", file="pyresample/utils/cf.py", func="_get_area_extent_from_cf_axis",
          params=[("x['first']", RAT), ("x['last']", RAT), ("x['sign']", RAT), ("x['spacing']", RAT),
                  ("y['first']", RAT), ("y['last']", RAT), ("y['sign']", RAT), ("y['spacing']", RAT)],
